@@ -268,6 +268,62 @@ def run(chk):
                                {"text": text, "program": prog, "impl": impl, "spec": want, "tree": tree})
         chk.sample({"text": text, "value": value, "bytes": impl}, limit=5)
 
+    # ---- canonical syntax trees (spec/ExprPrint.v): the text printed by the extracted printer must be parsed by the REAL parser
+    #      to the tree the canonical syntax denotes (theorem C03_parse_print states this for the model parser, for all trees)
+    LOOSE = ["+", "-", "==", "!=", ">=", "<=", ">", "<", "&&", "||"]
+    TIGHT = ["*", "/", "%", "<<", ">>", "^"]
+
+    def canon_factor(d):
+        r = rng.random()
+        if d > 0 and r < 0.3:
+            return ["par", canon_loose(d - 1)]
+        if r < 0.65:
+            radix = rng.choice([10, 10, 16, 2])
+            v = rng.choice([0, 1, 9, 10, 255, 256, 65535, rng.randrange(0, 2 ** 20)])
+            digits = {10: "%d" % v, 16: rng.choice(["%x", "%X"]) % v, 2: "{0:b}".format(v)}[radix]
+            if rng.random() < 0.2:
+                digits = "0" * rng.randrange(1, 3) + digits
+            return ["num", radix, T(digits)]
+        return ["id", T(rng.choice(["a", "x1", "_b", "c0", "Zed", "label_9", "e", "i", "o"]))]
+
+    def canon_tight(d):
+        t = ["T1", canon_factor(d)]
+        for _ in range(rng.choice([0, 0, 1, 1, 2, 4])):
+            t = ["TBin", t, rng.choice(TIGHT), canon_factor(d)]
+        return t
+
+    def canon_loose(d):
+        l = ["L1", canon_tight(d)]
+        for _ in range(rng.choice([0, 1, 1, 2, 3, 5])):
+            l = ["LBin", l, rng.choice(LOOSE), canon_tight(d)]
+        return l
+
+    dist["canonical"] = 0
+    seen_c = set()
+    for i in range(3000 if thorough else 600):
+        ct = canon_loose(rng.choice([0, 1, 2, 3]))
+        mp = model.call({"cmd": "print_canon", "tree": ct})
+        if "text" not in mp:
+            chk.tie_break("model", "print_canon failed: %s" % mp, {"tree": ct})
+            continue
+        if not mp["wf"]:
+            chk.tie_break("generator", "generated canonical tree is not well-formed by wf_loose", {"tree": ct})
+            continue
+        text = "".join(map(chr, mp["text"]))
+        if text in seen_c:
+            continue
+        seen_c.add(text)
+        dist["canonical"] += 1
+        chk.count(1, 1 if " " in text else 0)
+        for follow in ("", ")", ", 1", "\nnop"):
+            rp = probe.call({"cmd": "expr", "src": text + follow})
+            got = canon_real(rp["ast"]) if rp.get("ok") else None
+            if got != mp["ast"] or rp.get("hi") != len(text):
+                chk.oracle_failure(None, "the text %r of a canonical syntax tree is not parsed to the tree it denotes (precedence / associativity / "
+                                   "parentheses): got %s, expected %s, consumed %s of %d" % (text + follow, got, mp["ast"], rp.get("hi"), len(text)),
+                                   {"text": text + follow, "canonical": ct, "impl": got, "spec": mp["ast"]})
+                break
+
     # ---- data sizes, strings, defined()
     fixed = []
     for v in [0, 1, 255, 256, 65535, 65536, 2 ** 32 - 1, 2 ** 32, 2 ** 40 + 0x0a0b0c0d, -1, -256, -65537]:
